@@ -148,8 +148,8 @@ theorem putAll_blocks : ∀ (l : List (Nat × NodeS)) (s : Ledger), (s.putAll l)
     obtain ⟨h1, h2, h3, h4⟩ := putAll_blocks rest (s.setNode i nd)
     exact ⟨h1, h2, h3, h4⟩
 
-theorem putAll_core {cfg : Cfg} : ∀ (l : List (Nat × NodeS)) {s : Ledger}, Core cfg s → (∀ p ∈ l, NodeOK cfg s p.2) →
-    Core cfg (s.putAll l)
+theorem putAll_core {cfg : Cfg} {st : Bool} : ∀ (l : List (Nat × NodeS)) {s : Ledger}, Core cfg st s → (∀ p ∈ l, NodeOK cfg s p.2) →
+    Core cfg st (s.putAll l)
   | [], s, hc, _ => hc
   | (i, nd) :: rest, s, hc, h => by
     unfold Ledger.putAll
@@ -159,8 +159,8 @@ theorem putAll_core {cfg : Cfg} : ∀ (l : List (Nat × NodeS)) {s : Ledger}, Co
 theorem putAll_ext (l : List (Nat × NodeS)) (s : Ledger) : Ext s (s.putAll l) := Ext.of_blocks_eq (putAll_blocks l s).1
 
 /-- writing back a resolved chain whose nodes changed in size fields only -/
-theorem putAll_sz_core {cfg : Cfg} {s : Ledger} {l : List Nat} {suf suf' : List (Nat × NodeS)} (hc : Core cfg s)
-    (hr : s.resolve l = some suf) (hs : SzL suf suf') : Core cfg (s.putAll suf') := by
+theorem putAll_sz_core {cfg : Cfg} {st : Bool} {s : Ledger} {l : List Nat} {suf suf' : List (Nat × NodeS)} (hc : Core cfg st s)
+    (hr : s.resolve l = some suf) (hs : SzL suf suf') : Core cfg st (s.putAll suf') := by
   refine putAll_core suf' hc (fun p' hp' => ?_)
   obtain ⟨p, hm, _, h1, _, h3, h4, _⟩ := hs.mem p' hp'
   exact (hc.node p.1 p.2 (resolve_mem l hr p hm)).of_same h4 h1 h3
